@@ -75,6 +75,11 @@ func genHeap(c *gal.Ctx) {
 	add("heap_edge", txtRegs{HeapBase: 0x7B200000, HeapSize: 0xE0000, SinitBase: 0x7B1E0000, SinitSize: 0x10000})
 	add("heap_edge", txtRegs{HeapBase: 0x7B200000, HeapSize: 0xE0000, SinitBase: 0x7B200000, SinitSize: 0x10000})
 	add("heap_edge", txtRegs{HeapBase: 0, HeapSize: 0xE0000, SinitBase: 0, SinitSize: 0x10000})
+	// SINIT ending at the heap, large enough, base misaligned by one bit at a time below 4 KiB
+	for b := uint(0); b < 12; b++ {
+		add("heap_edge_align", txtRegs{HeapBase: 0x7B200000, HeapSize: 0xE0000, SinitBase: 0x7B1F0000 - 1<<b, SinitSize: 0x10000 + 1<<b})
+	}
+	add("heap_edge_align", txtRegs{HeapBase: 0x7B200000, HeapSize: 0xE0000, SinitBase: 0x7B1EF000, SinitSize: 0x11000})
 	for i := 0; i < c.Scale(80, 800); i++ {
 		var t txtRegs
 		t.HeapBase = (r.Uint32() >> uint(r.Intn(4))) &^ 0xfff
@@ -98,6 +103,10 @@ func genHeap(c *gal.Ctx) {
 		}
 		if r.Intn(10) == 0 {
 			t.SinitSize = r.Uint32()
+		}
+		if r.Intn(8) == 0 { // sub-page size: the base = HeapBase - size is then misaligned
+			t.SinitSize = 0x10000 + uint32(r.Intn(0x2000))
+			t.SinitBase = t.HeapBase - t.SinitSize
 		}
 		t.MleJoin = r.Uint32()
 		add("heap_random", t)
